@@ -160,7 +160,7 @@ def d2(chk, prog):
     fi = prog.fn(f"{SF}.squash_by_groups")
     tb = Table(chk, "group-key", "squash_by_groups on literal tables: 1-4 rows x levels {0,1,2,4} x chromosome boundaries; allele-specific and by-arm variants", fi.loc(), fi.qn)
     configs = []
-    for n in (1, 2, 3, 4):
+    for n in ((1, 2, 3, 4) if chk.tier != "thorough" else (1, 2, 3, 4, 5)):
         for lv in itertools.product([0, 1, 2, 4], repeat=n):
             for cuts in itertools.product([False, True], repeat=n - 1):
                 chroms, c = [], 0
